@@ -1245,7 +1245,48 @@ func (e *enumerator) walkFn(fn *ssa.Function, ev []string, depth int, k func(ev 
 						}
 					}
 				}
+				// a pure boolean helper of the tested value (`isFailure(xerr)`): what its
+				// answer says about the argument being nil
+				type nilTest struct {
+					v               ssa.Value
+					onTrue, onFalse int
+				}
+				var helperTests []nilTest
+				if hc, isCall := t.Cond.(*ssa.Call); isCall && tested == nil {
+					if cal := hc.Common().StaticCallee(); cal != nil && !hc.Common().IsInvoke() && len(cal.Params) == len(hc.Common().Args) {
+						for _, im := range e.w.helperNilImplications(cal) {
+							if rv := stripConv(e.resolve(stripConv(hc.Common().Args[im.param]), st)); rv != nil {
+								switch rv.(type) {
+								case *ssa.Call, *ssa.Extract:
+									helperTests = append(helperTests, nilTest{rv, im.onTrue, im.onFalse})
+								}
+							}
+						}
+					}
+				}
 				branch := func(taken bool, succ *ssa.BasicBlock) {
+					for _, ht := range helperTests {
+						f := ht.onFalse
+						if taken {
+							f = ht.onTrue
+						}
+						if f == 0 {
+							continue
+						}
+						if st.nilFact == nil {
+							st.nilFact = map[nilKey]int{}
+						}
+						tk := st.nk(ht.v)
+						old, had := st.nilFact[tk]
+						st.nilFact[tk] = f
+						defer func() {
+							if had {
+								st.nilFact[tk] = old
+							} else {
+								delete(st.nilFact, tk)
+							}
+						}()
+					}
 					if tested != nil {
 						if st.nilFact == nil {
 							st.nilFact = map[nilKey]int{}
@@ -2005,6 +2046,70 @@ func (w *World) evalBool(v ssa.Value, st *pathState, eval func(ssa.Value) (bool,
 }
 
 func isCallValue(v ssa.Value) bool { _, ok := v.(*ssa.Call); return ok }
+
+type nilImplication struct {
+	param           int
+	onTrue, onFalse int // +1: the argument is not nil, -1: it is nil, 0: nothing known
+}
+
+// helperNilImplications: for a pure boolean helper, what each answer says about a
+// pointer/interface parameter being nil. Found by evaluating the helper under
+// "the parameter is nil" and under "it is not": if it then answers r on every path,
+// the answer !r tells the opposite about the parameter.
+func (w *World) helperNilImplications(cal *ssa.Function) []nilImplication {
+	if w.nilImplMemo == nil {
+		w.nilImplMemo = map[*ssa.Function][]nilImplication{}
+	}
+	if r, ok := w.nilImplMemo[cal]; ok {
+		return r
+	}
+	w.nilImplMemo[cal] = nil
+	if cal.Blocks == nil || !w.InModule(cal) || cal.Signature.Results().Len() != 1 || !isBoolType(cal.Signature.Results().At(0).Type()) || len(cal.Blocks) > 24 || !w.pureFn(cal, 0) {
+		return nil
+	}
+	var out []nilImplication
+	for i, p := range cal.Params {
+		switch p.Type().Underlying().(type) {
+		case *types.Pointer, *types.Interface, *types.Slice, *types.Map:
+		default:
+			continue
+		}
+		under := func(isNil bool) (bool, bool) {
+			ev := func(v ssa.Value) (bool, bool) {
+				if bo, ok := v.(*ssa.BinOp); ok && (bo.Op == token.EQL || bo.Op == token.NEQ) {
+					for _, pr := range [][2]ssa.Value{{bo.X, bo.Y}, {bo.Y, bo.X}} {
+						if c, isC := pr[1].(*ssa.Const); isC && c.IsNil() && stripConv(pr[0]) == ssa.Value(p) {
+							return isNil == (bo.Op == token.EQL), true
+						}
+					}
+				}
+				return false, false
+			}
+			return w.evalFnBool(cal, ev, 1)
+		}
+		im := nilImplication{param: i}
+		if r, ok := under(true); ok {
+			// nil gives r: the other answer means not nil
+			if r {
+				im.onFalse = 1
+			} else {
+				im.onTrue = 1
+			}
+		}
+		if r, ok := under(false); ok {
+			if r {
+				im.onFalse = -1
+			} else {
+				im.onTrue = -1
+			}
+		}
+		if im.onTrue != 0 || im.onFalse != 0 {
+			out = append(out, im)
+		}
+	}
+	w.nilImplMemo[cal] = out
+	return out
+}
 
 // evalFnBool: the boolean a pure helper returns under eval, if all feasible
 // paths agree.
